@@ -145,3 +145,86 @@ Theorem C09_never_returned : forall encrypted xs base_iv, keystream_ok xs ->
   In d (fst (iterate encrypted xs base_iv buf off)) -> valid_image encrypted xs base_iv buf off d.
 Proof. intros encrypted xs base_iv (H1 & H2 & H3). exact (delivered_valid encrypted xs base_iv H1 H2 H3). Qed.
 Print Assumptions C09_never_returned.
+
+(* ---- MANIFEST part of C09 (model and proofs: A/Manifest*.v, developed with C17) ---- *)
+From Verif Require Import Crc32cM Manifest.
+From Verif Require ManifestMapProofs ManifestPbProofs ManifestProofs ManifestRunProofs ManifestWitness.
+(* FULL STATEMENT (C09_manifest_truncated) — FALSE for the pinned tree (C09_manifest_truncated_refuted):
+     for F = mf_image ext css (all applying) and every strict prefix p of a further record,
+     replay ext (F ++ p) = ROk (state after css) (offset |F|).
+   It holds exactly when the 8-byte record prefix did not survive or the payload length does not
+   exceed the size of the cut file: *)
+Theorem C09_manifest_truncated_partial : forall ext css m' C payload p s,
+  ext < 65536 ->
+  Forall (fun cs => wf_changeset cs = true) css ->
+  apply_sets empty_manifest css = (m', None) ->
+  N.of_nat (length payload) < two32 -> s <> [] ->
+  p ++ s = be_enc 4 (N.of_nat (length payload)) ++ be_enc 4 C ++ payload ->
+  N.of_nat (length (mf_image ext css ++ p)) < two32 ->
+  ((length p < 8)%nat \/ (length payload <= length (mf_image ext css ++ p))%nat) ->
+  replay ext (mf_image ext css ++ p) = ROk m' (N.of_nat (length (mf_image ext css))).
+Proof. exact ManifestProofs.replay_torn_ok. Qed.
+Print Assumptions C09_manifest_truncated_partial.
+
+(* ... and otherwise replay fails (finding F16), for every such cut: *)
+Theorem C09_manifest_truncated_lensize : forall ext css m' C payload p s,
+  ext < 65536 ->
+  Forall (fun cs => wf_changeset cs = true) css ->
+  apply_sets empty_manifest css = (m', None) ->
+  N.of_nat (length payload) < two32 -> s <> [] ->
+  p ++ s = be_enc 4 (N.of_nat (length payload)) ++ be_enc 4 C ++ payload ->
+  N.of_nat (length (mf_image ext css ++ p)) < two32 ->
+  (8 <= length p)%nat -> (length (mf_image ext css ++ p) < length payload)%nat ->
+  replay ext (mf_image ext css ++ p) = RErr ELenGtSize.
+Proof. exact ManifestProofs.replay_torn_lensize. Qed.
+Print Assumptions C09_manifest_truncated_lensize.
+
+Theorem C09_manifest_truncated_refuted :
+  exists ext css m' payload n,
+    ext < 65536 /\ Forall (fun cs => wf_changeset cs = true) css
+    /\ apply_sets empty_manifest css = (m', None)
+    /\ (n < length (mf_record payload))%nat
+    /\ replay ext (mf_image ext css ++ firstn n (mf_record payload)) = RErr ELenGtSize.
+Proof. exact ManifestWitness.truncated_refuted. Qed.
+Print Assumptions C09_manifest_truncated_refuted.
+
+(* helpOpenOrCreateManifestFile (the MANIFEST part of Open) on such a file: it is cut back to
+   the whole records and the live table map is theirs *)
+Theorem C09_manifest_open_truncates : forall cfg css m' p man0,
+  cfg_ext cfg < 65536 ->
+  Forall (fun cs => wf_changeset cs = true) css ->
+  apply_sets empty_manifest css = (m', None) ->
+  replay (cfg_ext cfg) (mf_image (cfg_ext cfg) css ++ p)
+    = ROk m' (N.of_nat (length (mf_image (cfg_ext cfg) css))) ->
+  exists live,
+    reopen cfg (mkMF (mf_image (cfg_ext cfg) css ++ p) man0)
+    = (mkMF (mf_image (cfg_ext cfg) css) live,
+       OReopened (N.of_nat (length (mf_image (cfg_ext cfg) css))))
+    /\ m_tables live = m_tables m'.
+Proof. exact ManifestRunProofs.reopen_torn. Qed.
+Print Assumptions C09_manifest_open_truncates.
+
+(* FULL STATEMENT (C09_manifest_zero_filled) — FALSE for the pinned tree (finding F5):
+     ... replay ext (F ++ p ++ zeros) = ROk (state after css) _ .                               *)
+Theorem C09_manifest_zero_filled_refuted :
+  exists ext css m' payload n,
+    ext < 65536 /\ Forall (fun cs => wf_changeset cs = true) css
+    /\ apply_sets empty_manifest css = (m', None)
+    /\ (n < length (mf_record payload))%nat
+    /\ replay ext (mf_image ext css ++ firstn n (mf_record payload)
+                   ++ repeat 0 (length (mf_record payload) - n)) = RErr EBadChecksum.
+Proof. exact ManifestWitness.zero_filled_refuted. Qed.
+Print Assumptions C09_manifest_zero_filled_refuted.
+
+(* what holds: when only zero bytes follow the whole records (the cut is at a record boundary,
+   or every surviving byte of the torn record is zero) they read as empty change sets: the
+   state is the one before the damage; truncOffset covers the whole 8-byte zero records *)
+Theorem C09_manifest_zero_filled_partial : forall ext css m' k,
+  ext < 65536 ->
+  Forall (fun cs => wf_changeset cs = true) css ->
+  apply_sets empty_manifest css = (m', None) ->
+  N.of_nat (length (mf_image ext css) + k) < two32 ->
+  replay ext (mf_image ext css ++ repeat 0 k)
+  = ROk m' (N.of_nat (length (mf_image ext css)) + 8 * N.of_nat (k / 8)).
+Proof. exact ManifestProofs.replay_zero_tail. Qed.
+Print Assumptions C09_manifest_zero_filled_partial.
